@@ -653,6 +653,82 @@ func (m *cmdModel) helperTakeError(c *Ctx, v ssa.Value, kind string) bool {
 	return false
 }
 
+// helperNilMeansTaken: v is the error result of a helper that returns a nil error only on paths where its take
+// succeeded: every return's error result is the take's own error, or a nil constant reached through the nil edge
+// of the take's error.
+func (m *cmdModel) helperNilMeansTaken(c *Ctx, v ssa.Value, kind string) bool {
+	call, idx := resultOf(v)
+	if call == nil {
+		return false
+	}
+	all := false
+	for _, h := range c.CalleesOf(call) {
+		if fnPkgPath(h) != pkgCommand || h == m.take || idx != errResultIdx(h.Signature) || !m.reachesTake(c, h, kind) {
+			continue
+		}
+		ok := true
+		isTakeErr := func(x ssa.Value) bool {
+			for _, r := range roots(x, nil) {
+				if cl, isC := r.(*ssa.Call); isC && callsFn(cl, m.take) {
+					return true
+				}
+			}
+			return false
+		}
+		cells := resultCells(h)
+		pr := &PathRule{
+			Edge: func(pc *PathCtx, s uint64, from *ssa.BasicBlock, si int) (uint64, bool) {
+				for _, f := range pc.edgeFacts(from, si) {
+					if isNilConst(f.Y) && isTakeErr(f.X) {
+						if f.Eq {
+							s |= 1
+						} else {
+							s &^= 1
+						}
+					}
+				}
+				return s, true
+			},
+			Step: func(pc *PathCtx, s uint64, ins ssa.Instruction) uint64 {
+				check := func(x ssa.Value) {
+					if isTakeErr(x) {
+						return
+					}
+					if isNilConst(x) {
+						if s&1 == 0 {
+							ok = false
+						}
+						return
+					}
+					// another error value: assumed non-nil only when it is a fresh error
+					if _, isCall := x.(*ssa.Call); !isCall {
+						if _, isMI := x.(*ssa.MakeInterface); !isMI {
+							ok = false
+						}
+					}
+				}
+				switch x := ins.(type) {
+				case *ssa.Store:
+					if a, isA := x.Addr.(*ssa.Alloc); isA && cells[idx] == a {
+						check(x.Val)
+					}
+				case *ssa.Return:
+					if idx < len(x.Results) && cells[idx] == nil {
+						check(x.Results[idx])
+					}
+				}
+				return s
+			},
+		}
+		c.RunPaths(h, 0, pr)
+		if !ok {
+			return false
+		}
+		all = true
+	}
+	return all
+}
+
 // reachesTake: does fn (through static callees of the package) reach a take of this kind?
 func (m *cmdModel) reachesTake(c *Ctx, fn *ssa.Function, kind string) bool {
 	memo := map[*ssa.Function]int{}
@@ -822,8 +898,12 @@ func ruleR11a(c *Ctx) {
 							s &^= rvTAKEN
 						}
 					}
-					if isNilConst(f.Y) && !f.Eq && m.helperTakeError(c, f.X, "referenceTxReference") {
-						s &^= rvTAKEN
+					if isNilConst(f.Y) && m.helperTakeError(c, f.X, "referenceTxReference") {
+						if !f.Eq {
+							s &^= rvTAKEN
+						} else if s&(rvTAKEN|rvRELEASED) == 0 && m.helperNilMeansTaken(c, f.X, "referenceTxReference") {
+							return s, false // the helper reports no error only when its take succeeded
+						}
 					}
 					if e, ok := f.X.(*ssa.Extract); ok && isNilConst(f.Y) {
 						if call, ok := e.Tuple.(*ssa.Call); ok {
@@ -887,18 +967,17 @@ func ruleR10ab(c *Ctx) {
 		return
 	}
 	name := "RevertTransaction"
-	var keyVal ssa.Value
-	allCalls(fn, func(ci ssa.CallInstruction) {
-		if k, key, ok := m.takeKind(c, ci); ok && k == "referenceReverts" {
-			keyVal = key
-		}
-	})
+	const kind = "referenceReverts"
 	kGuard := name + ":in-flight-guard-spans-read-and-write"
 	kRev := name + ":refused-when-already-reverted"
-	obl.expect(kGuard, fn.Pos(), "take(referenceReverts, id) precedes the store read; released only after the write returned")
+	obl.expect(kGuard, fn.Pos(), "take(referenceReverts, id) precedes the store read; released only after the write returned, and only by its owner")
 	oblB.expect(kRev, fn.Pos(), "the write is reached only on the false edge of Transaction.Reverted of the transaction read for the same id")
+	var keyVal ssa.Value
+	if m.reachesTake(c, fn, kind) {
+		keyVal = m.reservationKey(c, fn, kind)
+	}
 	if keyVal == nil {
-		obl.violate(kGuard, fn.Pos(), "RevertTransaction does not reserve the transaction id (no take(referenceReverts, id)): two concurrent reverts both read `not reverted` and both append a revert", nil)
+		obl.violate(kGuard, fn.Pos(), "RevertTransaction does not reserve the transaction id (no take(referenceReverts, id), directly or through a helper): two concurrent reverts both read `not reverted` and both append a revert", nil)
 		return
 	}
 	var getTxCall *ssa.Call
@@ -908,27 +987,35 @@ func ruleR10ab(c *Ctx) {
 		}
 	})
 	nPersist := 0
+	release := func(pc *PathCtx, s uint64, pos token.Pos, deferred bool) uint64 {
+		if !deferred && s&rvPERSISTED == 0 && s&rvLOOKED != 0 && s&rvTAKEN != 0 {
+			obl.violate(kGuard, pos, "the in-flight guard is released between the read of the transaction and the revert write", pc.Trail())
+		}
+		if s&rvTAKEN == 0 {
+			pc.Note("release at %s without owning the guard", c.pos(pos))
+			obl.violate(kGuard, pos, "the in-flight guard is released on a path that does not own it (the take failed: another revert of this transaction is in flight): the owner's guard is dropped, and a third request can read `not reverted` and revert the transaction a second time", pc.Trail())
+		}
+		return (s &^ rvTAKEN) | rvRELEASED
+	}
 	pr := &PathRule{
+		Inline: m.inlineReservationHelpers(c, kind),
 		DeferID: func(d *ssa.Defer) int {
-			if k, _, ok := m.releaseKind(c, d); ok && k == "referenceReverts" {
+			if m.releasesKind(c, d, kind) {
 				return 0
 			}
 			return -1
 		},
-		RunDeferred: func(pc *PathCtx, s uint64, d *ssa.Defer) uint64 { return (s &^ rvTAKEN) | rvRELEASED },
+		RunDeferred: func(pc *PathCtx, s uint64, d *ssa.Defer) uint64 { return release(pc, s, d.Pos(), true) },
 		Step: func(pc *PathCtx, s uint64, ins ssa.Instruction) uint64 {
 			call, ok := ins.(*ssa.Call)
 			if !ok {
 				return s
 			}
-			if k, _, ok := m.takeKind(c, call); ok && k == "referenceReverts" {
+			if k, _, ok := m.takeKind(c, call); ok && k == kind {
 				return s | rvTAKEN
 			}
-			if k, _, ok := m.releaseKind(c, call); ok && k == "referenceReverts" {
-				if s&rvPERSISTED == 0 && s&rvLOOKED != 0 {
-					obl.violate(kGuard, call.Pos(), "the in-flight guard is released between the read of the transaction and the revert write", pc.Trail())
-				}
-				return (s &^ rvTAKEN) | rvRELEASED
+			if m.releasesKind(c, call, kind) {
+				return release(pc, s, call.Pos(), false)
 			}
 			if call == getTxCall {
 				if s&rvTAKEN == 0 {
@@ -955,6 +1042,19 @@ func ruleR10ab(c *Ctx) {
 		},
 		Edge: func(pc *PathCtx, s uint64, from *ssa.BasicBlock, si int) (uint64, bool) {
 			for _, f := range pc.edgeFacts(from, si) {
+				// error edge of the take itself (or of a helper passing it on): the guard is not owned
+				if call, ok := f.X.(*ssa.Call); ok && isNilConst(f.Y) && !f.Eq {
+					if k, _, ok := m.takeKind(c, call); ok && k == kind {
+						s &^= rvTAKEN
+					}
+				}
+				if isNilConst(f.Y) && m.helperTakeError(c, f.X, kind) {
+					if !f.Eq {
+						s &^= rvTAKEN
+					} else if s&(rvTAKEN|rvRELEASED) == 0 && m.helperNilMeansTaken(c, f.X, kind) {
+						return s, false // the helper reports no error only when its take succeeded
+					}
+				}
 				if base, ok := fieldRead(f.X, m.fReverted); ok {
 					fromRead := false
 					for _, r := range roots(rootBase(base), nil) {
@@ -974,7 +1074,7 @@ func ruleR10ab(c *Ctx) {
 			return s, true
 		},
 		Exit: func(pc *PathCtx, s uint64, ins ssa.Instruction) {
-			if _, isRet := ins.(*ssa.Return); isRet && s&rvTAKEN != 0 && !returnsAfterFailedTake(pc) {
+			if _, isRet := ins.(*ssa.Return); isRet && s&rvTAKEN != 0 && pc.Fn() == fn {
 				obl.violate(kGuard, ins.Pos(), "a path returns while still holding the in-flight guard: the transaction can never be reverted again", pc.Trail())
 			}
 		},
